@@ -455,6 +455,21 @@ class Sym:
             d = self.imports.get(name)
             return ('unknown', f'free name {name}' + (f' ({d})' if d else ''))
         vals: List[Val] = []
+        # an accumulator: `xs = []` (its only definition) filled by `xs.append(v)` / `xs.extend(vs)` statements -> the list of what is appended
+        if all(isinstance(d, (ast.List, ast.Call)) and ((isinstance(d, ast.List) and not d.elts) or (isinstance(d, ast.Call) and pf.dotted(d.func) == 'list' and not d.args
+                                                                                              and not d.keywords)) for d in ds):
+            elems: List[Val] = []
+            other_use = False
+            for n in pf.walk_shallow(fn):
+                if isinstance(n, ast.Call) and isinstance(n.func, ast.Attribute) and isinstance(n.func.value, ast.Name) and n.func.value.id == name:
+                    if n.func.attr == 'append' and len(n.args) == 1 and not n.keywords:
+                        elems.append(self.ev(n.args[0], fn, {k: v for k, v in binds.items() if k != name}, depth + 1))
+                    elif n.func.attr == 'extend' and len(n.args) == 1 and not n.keywords:
+                        elems.append(self._elem(self.ev(n.args[0], fn, {k: v for k, v in binds.items() if k != name}, depth + 1)))
+                    elif n.func.attr in ('insert', 'pop', 'remove', 'clear', 'sort', 'reverse', '__setitem__'):
+                        other_use = True
+            if elems and not other_use:
+                return ('list', _alt(elems))
         for d in ds:
             if isinstance(d, ast.arg):
                 vals.append(('param', name))
